@@ -2,11 +2,14 @@ package props
 
 import (
 	"bytes"
+	"context"
 	"encoding/binary"
+	"encoding/hex"
 	"encoding/json"
 	"errors"
 	"flag"
 	"fmt"
+	"io"
 	"os"
 	"os/exec"
 	"path/filepath"
@@ -51,6 +54,29 @@ type devScript struct {
 	// Silent: the quote request completes with its result code but the VMM filled in nothing (1: header and buffer untouched;
 	// 2: only the status is written). No quote was written, so no quote can come back.
 	Silent int `json:"silent,omitempty"`
+	// ErrKind selects the error value a failing request returns (ReportErr / QuoteErr): "" a plain error, or an errno, bare or
+	// wrapped the ways the os and syscall packages wrap them
+	ErrKind string `json:"err_kind,omitempty"`
+}
+
+func (s *devScript) err(what string) error {
+	errno := map[string]syscall.Errno{"EINTR": syscall.EINTR, "EAGAIN": syscall.EAGAIN, "EBUSY": syscall.EBUSY, "ETIMEDOUT": syscall.ETIMEDOUT, "EIO": syscall.EIO, "ENOTTY": syscall.ENOTTY, "EFAULT": syscall.EFAULT}
+	k := s.ErrKind
+	switch {
+	case k == "":
+		return errors.New("scripted: " + what + " ioctl failed")
+	case strings.HasPrefix(k, "wrapped-"):
+		return fmt.Errorf("ioctl %s: %w", what, errno[strings.TrimPrefix(k, "wrapped-")])
+	case strings.HasPrefix(k, "syscallerror-"):
+		return os.NewSyscallError("ioctl", errno[strings.TrimPrefix(k, "syscallerror-")])
+	case strings.HasPrefix(k, "patherror-"):
+		return &os.PathError{Op: "ioctl", Path: "/dev/tdx_guest", Err: errno[strings.TrimPrefix(k, "patherror-")]}
+	case k == "eof":
+		return io.EOF
+	case k == "deadline":
+		return context.DeadlineExceeded
+	}
+	return errno[k]
 }
 
 type devEvent struct {
@@ -75,7 +101,7 @@ func (d *scriptDev) Ioctl(command uintptr, arg any) (uintptr, error) {
 	case *labi.TdxReportReq:
 		d.log = append(d.log, devEvent{Cmd: "report", ReportData: append([]byte{}, req.ReportData[:]...)})
 		if d.s.ReportErr {
-			return 0, errors.New("scripted: report ioctl failed")
+			return 0, d.s.err("report")
 		}
 		copy(req.TdReport[:], d.s.TdReport)
 		return uintptr(d.s.ReportResult), nil
@@ -88,7 +114,7 @@ func (d *scriptDev) Ioctl(command uintptr, arg any) (uintptr, error) {
 		}
 		d.log = append(d.log, ev)
 		if d.s.QuoteErr {
-			return 0, errors.New("scripted: quote ioctl failed")
+			return 0, d.s.err("quote")
 		}
 		if d.s.Silent == 1 {
 			return uintptr(d.s.QuoteResult), nil
@@ -270,6 +296,71 @@ func c15(x *mon.Ctx) {
 			}
 		}
 		x.Require("failure-status-with-framed-buffer", 0, n, n)
+	}
+
+	// ---- a request that fails with an errno — bare or wrapped, EINTR and EAGAIN included, every time it is made — is a failed
+	//      request: an error comes back, no data, and after a failed report request no quote request is made. (The device leaves
+	//      a completed-looking buffer behind the failing quote request.)
+	{
+		n := 0
+		for _, kind := range []string{"EINTR", "wrapped-EINTR", "syscallerror-EINTR", "patherror-EINTR", "EAGAIN", "wrapped-EAGAIN", "EBUSY", "ETIMEDOUT", "wrapped-ETIMEDOUT", "EIO", "ENOTTY", "EFAULT", "eof", "deadline"} {
+			for _, where := range []string{"report", "quote"} {
+				s := &devScript{ReportErr: where == "report", QuoteErr: where == "quote", ErrKind: kind, OutLen: uint32(len(valid)), Quote: valid, ReportData: randBytes(r, 64), TdReport: randBytes(r, 1024), FillRest: 0x33}
+				p, ok := deviceProblem(s)
+				param := where + "-request-fails-with-" + kind
+				if p != "" {
+					x.Violation("request-fails-with-errno", param, p, "device", s)
+				}
+				x.Note("request-fails-with-errno", param, ok, strings.HasPrefix(p, "GetRawQuote panics"), p == "")
+				n++
+			}
+		}
+		x.Require("request-fails-with-errno", 0, n, n)
+	}
+	// ---- SUCCESSFUL requests whose buffer contents look like something else than a quote: the messages of the quote generation
+	//      service (4-byte big-endian length, then major / minor version, type, size, error code, two sizes, payload — request and
+	//      response types, error codes, a quote inside), other length-prefixed frames, text. The caller gets the first OutLen
+	//      bytes the device wrote, whatever they are.
+	{
+		le := func(w int, v uint64) []byte { b := make([]byte, 8); binary.LittleEndian.PutUint64(b, v); return b[:w] }
+		be32 := func(v int) []byte { b := make([]byte, 4); binary.BigEndian.PutUint32(b, uint32(v)); return b }
+		cat := func(parts ...[]byte) []byte {
+			var o []byte
+			for _, p := range parts {
+				o = append(o, p...)
+			}
+			return o
+		}
+		qgs := func(major, minor uint16, typ, errc uint32, idSize int, body []byte) []byte {
+			msg := cat(le(2, uint64(major)), le(2, uint64(minor)), le(4, uint64(typ)), le(4, uint64(24+idSize+len(body))), le(4, uint64(errc)), le(4, uint64(idSize)), le(4, uint64(len(body))), make([]byte, idSize), body)
+			return cat(be32(len(msg)), msg)
+		}
+		inner := valid[:2100]
+		contents := map[string][]byte{
+			"qgs-get-quote-resp-1.0": qgs(1, 0, 1, 0, 0, inner), "qgs-get-quote-resp-1.1": qgs(1, 1, 1, 0, 0, inner), "qgs-get-quote-resp-with-id": qgs(1, 0, 1, 0, 16, inner),
+			"qgs-get-quote-resp-error": qgs(1, 0, 1, 0x00012001, 0, nil), "qgs-get-quote-resp-error-with-quote": qgs(1, 0, 1, 7, 0, inner), "qgs-get-quote-req": qgs(1, 0, 0, 0, 0, inner),
+			"qgs-get-quote-resp-2.0": qgs(2, 0, 1, 0, 0, inner), "qgs-get-quote-resp-empty-quote": qgs(1, 0, 1, 0, 0, nil), "qgs-type-3": qgs(1, 0, 3, 0, 0, inner),
+			"be32-length-then-quote": cat(be32(len(inner)), inner), "le32-length-then-quote": cat(le(4, uint64(len(inner))), inner), "le64-length-then-quote": cat(le(8, uint64(len(inner))), inner),
+			"getquote-header-then-quote": cat(le(8, 1), le(8, 0), le(4, 1024), le(4, uint64(len(inner))), inner),
+			"json":                       []byte(`{"quote":"` + hex.EncodeToString(inner[:600]) + `"}`), "hex-text": []byte(hex.EncodeToString(inner[:1000])), "all-zero": make([]byte, 3000), "td-report-then-quote": cat(make([]byte, 1024), inner),
+		}
+		n := 0
+		for name, q := range contents {
+			for _, ol := range []int{len(q), len(q) + 1, len(q) - 1, len(q) + 100, 28, 27, labi.ReqBufSize} {
+				if ol <= 0 {
+					continue
+				}
+				s := &devScript{OutLen: uint32(ol), Quote: q, ReportData: randBytes(r, 64), TdReport: randBytes(r, 1024), FillRest: byte(n)}
+				p, ok := deviceProblem(s)
+				param := fmt.Sprintf("%s/outlen=%d", name, ol)
+				if p != "" {
+					x.Violation("successful-request-with-structured-contents", param, p, "device", s)
+				}
+				x.Note("successful-request-with-structured-contents", param, ok, strings.HasPrefix(p, "GetRawQuote panics"), p == "")
+				n++
+			}
+		}
+		x.Require("successful-request-with-structured-contents", n, 0, n)
 	}
 
 	// ---- the bytes handed to the caller are the caller's: a later call with another answer must not change them
